@@ -23,11 +23,11 @@ let () =
       match split_ws line with
       | ["R"] -> print_endline ""
       | "R" :: [h] ->
-        let rs = records (z_of_int 10) true (zlist_of_hex (undash h)) in
+        let rs = tool_lines (zlist_of_hex (undash h)) in
         print_endline (String.concat " " (List.map (fun r -> hex_or_dash (hex_of_zlist r)) rs))
       | "T" :: h :: ks ->
         let keys = List.map n_of_string ks in
-        let recs = records (z_of_int 10) true (zlist_of_hex (undash h)) in
+        let recs = tool_lines (zlist_of_hex (undash h)) in
         if List.length recs <> List.length keys then print_endline "KEYCOUNT"
         else
           (* keys are assigned by position: pair every record with its key first *)
@@ -39,8 +39,8 @@ let () =
         let keys = List.map n_of_string ks in
         let n0 = int_of_string n0 in
         let k0 = List.filteri (fun i _ -> i < n0) keys and k1 = List.filteri (fun i _ -> i >= n0) keys in
-        let r0 = records (z_of_int 10) true (zlist_of_hex (undash h0)) in
-        let r1 = records (z_of_int 10) true (zlist_of_hex (undash h1)) in
+        let r0 = tool_lines (zlist_of_hex (undash h0)) in
+        let r1 = tool_lines (zlist_of_hex (undash h1)) in
         if List.length r0 <> List.length k0 || List.length r1 <> List.length k1 then print_endline "KEYCOUNT"
         else
           let p0 = List.combine r0 k0 and p1 = List.combine r1 k1 in
